@@ -25,6 +25,10 @@ type c14Params struct {
 	Self   bool `json:"self_comparison"`
 	// the query is said to be a complemented strand: in a comparison of two different sequences that changes nothing
 	Complement bool `json:"complement_flag,omitempty"`
+	// the chunk size of the sorter the caller supplies for the hits (0: 65536); small ones make the hits spill to run files
+	MorassChunk int `json:"morass_chunk,omitempty"`
+	// the caller reuses its Params value for something else once the filter has been made
+	ReuseParams bool `json:"params_value_reused_after_new,omitempty"`
 }
 
 type c14Match struct{ T0, Q0, Mism int }
@@ -42,12 +46,20 @@ func c14Filter(target, query []byte, p c14Params, dir string, prior []byte) ([]f
 		return nil, fmt.Errorf("kmerindex.New: %v", err)
 	}
 	ki.Build()
-	m, err := morass.New(filter.Hit{}, "c14", dir, 1<<16, false)
+	chunk := 1 << 16
+	if p.MorassChunk > 0 {
+		chunk = p.MorassChunk
+	}
+	m, err := morass.New(filter.Hit{}, "c14", dir, chunk, false)
 	if err != nil {
 		return nil, fmt.Errorf("morass.New: %v", err)
 	}
 	defer m.CleanUp()
-	f := filter.New(ki, &filter.Params{WordSize: p.K, MinMatch: p.N, MaxError: p.E, TubeOffset: p.Offset})
+	prm := &filter.Params{WordSize: p.K, MinMatch: p.N, MaxError: p.E, TubeOffset: p.Offset}
+	f := filter.New(ki, prm)
+	if p.ReuseParams {
+		*prm = filter.Params{WordSize: 31, MinMatch: 40 * p.N, MaxError: 0, TubeOffset: 1}
+	}
 	if prior != nil {
 		ps := linear.NewSeq("prior", alphabet.BytesToLetters(append([]byte(nil), prior...)), alphabet.DNA)
 		if p.Self { // the same self comparison run twice on one Filter: the second answer is the one that is judged
@@ -219,6 +231,14 @@ func c14Case(r *obs.Run, i int) {
 	}
 	if stress {
 		r.Count("ring_stress_pairs", 1)
+	}
+	if rng.Intn(3) == 0 { // hits spill to run files of the caller's sorter (the last run being a partial one, or not)
+		p.MorassChunk = []int{1, 2, 3, 7, 16, 50, 200}[rng.Intn(7)]
+		r.Count("filters_writing_to_a_small_chunk_sorter", 1)
+	}
+	if rng.Intn(3) == 0 {
+		p.ReuseParams = true
+		r.Count("params_values_reused_after_new", 1)
 	}
 	if p.Self {
 		Q = T
